@@ -26,6 +26,10 @@ def gen(rng, cid):
             b = rng.weighted([('waiter', 7), ('notifier', 6), ('bare', 2)] + ([('stopper', 4)] if stopcase else []))
             if b == 'stopper' or (stopcase and t == k - 1 and stoppers == 0 and rng.below(4) != 0):
                 stoppers += 1
+                # filler so that the request tends to arrive when waiters are already parked / in flight
+                for _ in range(rng.weighted([(0, 2), (1, 2), (2, 2), (4, 1)])):
+                    ops.append('lock')
+                    ops.append('unlock')
                 style = rng.below(3)
                 if style == 0:
                     ops.append('stop')
